@@ -206,7 +206,7 @@ def _rid_key(rid):
     return [int(x) if x.isdigit() else x for x in re.split(r"(\d+)", rid)]
 
 
-def finish(run: Run, level_text, assumptions, undecided, extra=None, out=print):
+def finish(run: Run, level_text, assumptions, undecided, extra=None, out=print, exhaustive=False):
     """Write evidence + violation files, print the verdict lines, return the exit code."""
     prop = run.prop
     known = load_known()
@@ -236,7 +236,7 @@ def finish(run: Run, level_text, assumptions, undecided, extra=None, out=print):
         distinct |= {(r.id, d) for d in c.distinct}
         functions |= c.functions
         rules_ev.append({
-            "id": r.id, "template": r.template, "statement": r.doc.split("\n\n")[0].replace("\n", " ")[:600],
+            "id": r.id, "template": r.template, "statement": " ".join(r.doc.split("\n\n")[0].split())[:700],
             "obligations": c.obligations, "discharged": c.discharged, "cases": c.evaluations, "paths": c.paths,
             "floor": r.floor,
             "verdict": "analysis-error" if err else ("violation" if any(v.rule == r.id for v, _ in new) else
@@ -277,7 +277,7 @@ def finish(run: Run, level_text, assumptions, undecided, extra=None, out=print):
             "rule": "an obligation is one rule instance (site, path, table row or finite-domain case) examined on "
                     "this run; distinct_nontrivial counts distinct (rule, instance-key) pairs that examined at "
                     "least one site/case of the current tree",
-            "exhaustive": True,
+            "exhaustive": bool(exhaustive),
             "paths": paths,
             "call_sites": call_sites,
             "functions_analysed": sorted(functions),
